@@ -303,7 +303,7 @@ func (i *InsertStatement) Format(opts FormatOptions) string {
 	if i.Query != nil {
 		sb.WriteString(f.clauseSep())
 		if fq, ok := i.Query.(Formatter); ok {
-			sb.WriteString(fq.Format(opts))
+			sb.WriteString(fq.Format(nestedOptions(opts)))
 		} else {
 			sb.WriteString(stmtSQL(i.Query))
 		}
@@ -544,7 +544,7 @@ func (s *SetOperation) Format(opts FormatOptions) string {
 
 	if s.Left != nil {
 		if ls, ok := s.Left.(Formatter); ok {
-			sb.WriteString(ls.Format(opts))
+			sb.WriteString(ls.Format(nestedOptions(opts)))
 		} else {
 			sb.WriteString(stmtSQL(s.Left))
 		}
@@ -558,7 +558,7 @@ func (s *SetOperation) Format(opts FormatOptions) string {
 	sb.WriteString(f.clauseSep())
 	if s.Right != nil {
 		if rs, ok := s.Right.(Formatter); ok {
-			sb.WriteString(rs.Format(opts))
+			sb.WriteString(rs.Format(nestedOptions(opts)))
 		} else {
 			sb.WriteString(stmtSQL(s.Right))
 		}
@@ -709,7 +709,7 @@ func (c *CreateViewStatement) Format(opts FormatOptions) string {
 	sb.WriteString(f.kw("AS"))
 	sb.WriteString(f.clauseSep())
 	if qs, ok := c.Query.(Formatter); ok {
-		sb.WriteString(qs.Format(opts))
+		sb.WriteString(qs.Format(nestedOptions(opts)))
 	} else {
 		sb.WriteString(stmtSQL(c.Query))
 	}
@@ -759,7 +759,7 @@ func (c *CreateMaterializedViewStatement) Format(opts FormatOptions) string {
 	sb.WriteString(f.kw("AS"))
 	sb.WriteString(f.clauseSep())
 	if qs, ok := c.Query.(Formatter); ok {
-		sb.WriteString(qs.Format(opts))
+		sb.WriteString(qs.Format(nestedOptions(opts)))
 	} else {
 		sb.WriteString(stmtSQL(c.Query))
 	}
@@ -887,6 +887,14 @@ func formatExpr(e Expression, opts FormatOptions) string {
 	return exprSQL(e)
 }
 
+// nestedOptions returns opts for a statement that is printed inside another
+// one (sub-query, CTE body, set-operation operand, INSERT ... SELECT, view
+// query): the terminating semicolon belongs to the outermost statement only.
+func nestedOptions(opts FormatOptions) FormatOptions {
+	opts.AddSemicolon = false
+	return opts
+}
+
 // formatOperand formats e as an operand that must bind at least as tightly as min.
 func formatOperand(e Expression, opts FormatOptions, min int) string {
 	s := formatExpr(e, opts)
@@ -902,7 +910,7 @@ func formatStmt(s Statement, opts FormatOptions) string {
 		return ""
 	}
 	if fs, ok := s.(Formatter); ok {
-		return fs.Format(opts)
+		return fs.Format(nestedOptions(opts))
 	}
 	return stmtSQL(s)
 }
@@ -1148,9 +1156,17 @@ func formatWith(w *WithClause, f *formatter) string {
 		if len(cte.Columns) > 0 {
 			s += "(" + strings.Join(cte.Columns, ", ") + ") "
 		}
-		s += f.kw("AS") + " ("
+		s += f.kw("AS") + " "
+		if cte.Materialized != nil {
+			if *cte.Materialized {
+				s += f.kw("MATERIALIZED") + " "
+			} else {
+				s += f.kw("NOT MATERIALIZED") + " "
+			}
+		}
+		s += "("
 		if qs, ok := cte.Statement.(Formatter); ok {
-			s += qs.Format(f.opts)
+			s += qs.Format(nestedOptions(f.opts))
 		} else {
 			s += stmtSQL(cte.Statement)
 		}
